@@ -2,6 +2,7 @@
    Only property theorems and their assumptions. *)
 From Coq Require Import List NArith Bool Sorting.Sorted.
 From Quill Require Import Queue.BQDefs BT.BTModel Backend.BEDefs Backend.BEExec Backend.BEInv Backend.OrdSim TieC05.
+From Quill Require Queue.UQDefs.
 From Quill Require Backend.Ord.
 Import ListNotations.
 Local Open Scope N_scope.
@@ -35,7 +36,7 @@ Print Assumptions C05_skeleton_sorted.
 Definition K_d5 (rf2 : bool) : cfg :=
   {| c_cap := 1024; c_batch := 51; c_pub := {| on_batch := true; on_drain := true |}; c_dropping := false;
      c_tinit := 4; c_soft := 4; c_hard := 8; c_grace := 1; c_bits := 32; c_refresh2 := rf2; c_catch_all := true;
-     c_report_first := true; c_bt := {| reset_index_in_process := true; cap0_guard := true |}; c_bt_catch := true; c_flush_iv := 0 |}.
+     c_report_first := true; c_bt := {| reset_index_in_process := true; cap0_guard := true |}; c_bt_catch := true; c_flush_iv := 0; c_follow := true |}.
 Definition d5_cmds : list cmd :=
   [CLog 0 (mk_ev 1 0 4 50 0) false; CTick 5; CPoll []; CPoll [];
    CPoll [(1, 0, [CLog 1 (mk_ev 2 0 4 50 0) false; CTick 1; CLog 0 (mk_ev 3 0 4 50 0) false; CTick 2])];
@@ -53,7 +54,7 @@ Print Assumptions C05_refuted_old_order.
 Definition K_g0 : cfg :=
   {| c_cap := 1024; c_batch := 51; c_pub := {| on_batch := true; on_drain := true |}; c_dropping := false;
      c_tinit := 4; c_soft := 4; c_hard := 8; c_grace := 0; c_bits := 32; c_refresh2 := true; c_catch_all := true;
-     c_report_first := true; c_bt := {| reset_index_in_process := true; cap0_guard := true |}; c_bt_catch := true; c_flush_iv := 0 |}.
+     c_report_first := true; c_bt := {| reset_index_in_process := true; cap0_guard := true |}; c_bt_catch := true; c_flush_iv := 0; c_follow := true |}.
 Definition g0_cmds : list cmd :=
   [CLog 0 (mk_ev 1 0 4 50 0) false; CLog 1 (mk_ev 2 0 4 50 0) false; CPoll []; CPoll []; CPoll []; CTick 5;
    CPoll [(3, 1, [CTick 1; CLog 0 (mk_ev 3 0 4 50 0) false; CTick 1; CLog 1 (mk_ev 4 0 4 50 0) false])];
@@ -63,3 +64,30 @@ Theorem C05_grace0_refuted :
   = [1000; 1000; 1007; 1006].
 Proof. vm_compute. reflexivity. Qed.
 Print Assumptions C05_grace0_refuted.
+
+(* T-src: the backend's read of an unbounded queue keeps following the node chain while the node it switched
+   to is empty (otherwise a pass can miss an eligible statement: D17 below) *)
+Theorem C05_tie_unbounded_read_follows_chain : QuillGen.SrcFacts.be_unbounded_read_follows_chain = true.
+Proof. exact src_be_unbounded_read_follows_chain. Qed.
+Print Assumptions C05_tie_unbounded_read_follows_chain.
+
+(* D17 (found by the correspondence on the pinned tree, fixed): an unbounded queue whose thread shrank it to 128
+   bytes and then logged a 145-byte statement has a drained node, the unused 128-byte node and a third node
+   holding the statement; prepare_read follows one link per call, so the pass that should have read statement 1
+   (stamp 1000) reads nothing from that thread and the single-event path writes thread 1's later statement
+   (stamp 1001) first. With chain following the order is right. (This is the state excluded by the premise
+   "not u_blocked" inside WG; with chain following it does not arise in any run compared with the real code.) *)
+Definition K_d17 (follow : bool) : cfg :=
+  {| c_cap := 2 ^ 40; c_batch := 2 ^ 40 / 20; c_pub := {| on_batch := true; on_drain := true |}; c_dropping := false;
+     c_tinit := 4; c_soft := 4; c_hard := 8; c_grace := 1000; c_bits := 32; c_refresh2 := true; c_catch_all := true;
+     c_report_first := true; c_bt := {| reset_index_in_process := true; cap0_guard := true |}; c_bt_catch := true; c_flush_iv := 0; c_follow := follow |}.
+Definition d17_cmds : list cmd :=
+  [CShrink 0 128; CLog 0 (mk_ev 1 0 4 145 0) false; CTick 1; CLog 1 (mk_ev 2 0 4 45 0) false; CTick 5000;
+   CPoll []; CPoll []; CPoll []; CPoll []].
+Definition d17_out (follow : bool) : list N :=
+  let s0 := st0 1000 1 1 (fun _ => mk_lgr 0 [0%nat]) (fun _ => mk_snk 0 []) in
+  let s0 := set_th s0 (fun _ => set_thr_uqs thr0 (Some (Queue.UQDefs.uq_init 256))) in
+  map ets (plog (fst (exec_all (K_d17 follow) s0 d17_cmds))).
+Theorem C05_refuted_without_chain_following : d17_out false = [1001; 1000] /\ d17_out true = [1000; 1001].
+Proof. vm_compute. split; reflexivity. Qed.
+Print Assumptions C05_refuted_without_chain_following.
